@@ -159,3 +159,199 @@ Proof.
   intros Hp Hf Hr. apply (straightline_program_runs_as_its_source_says (snapshot_ast p) w fuel evs); [|exact Hf|exact Hr].
   apply plain_snapshot_is_straightline. exact Hp.
 Qed.
+
+(* ---------- what the reference semantics does with the snapshot of plain lights ---------- *)
+Lemma find_light_acc w n : forall acc, fold_left (fun acc l => if String.eqb (l_name l) n then Some l else acc) w acc <> None <->
+  (acc <> None \/ exists l, In l w /\ l_name l = n).
+Proof.
+  induction w as [|l r IH]; intros acc; cbn [fold_left].
+  - split; [intros H; left; exact H|intros [H|[l [[] _]]]; exact H].
+  - rewrite IH. destruct (String.eqb_spec (l_name l) n) as [E|E].
+    + split; [intros _; right; exists l; split; [left; reflexivity|exact E]|intros _; left; discriminate].
+    + split.
+      * intros [H|[x [Hx Hn]]]; [left; exact H|right; exists x; split; [right; exact Hx|exact Hn]].
+      * intros [H|[x [[Hx|Hx] Hn]]]; [left; exact H|subst x; contradiction|right; exists x; split; assumption].
+Qed.
+Lemma find_light_iff w n : find_light w n <> None <-> exists l, In l w /\ l_name l = n.
+Proof. unfold find_light. rewrite find_light_acc. split; [intros [H|H]; [contradiction|exact H]|intros H; right; exact H]. Qed.
+
+Lemma find_light_set_color w m c n : find_light w n <> None -> find_light (set_light_color m c w) n <> None.
+Proof.
+  rewrite !find_light_iff. intros [l [Hl Hn]]. unfold set_light_color.
+  exists (if String.eqb (l_name l) m then mkLight (l_name l) (l_group l) (l_loc l) (l_kind l) c else l).
+  split; [apply (in_map (fun l => if String.eqb (l_name l) m then mkLight (l_name l) (l_group l) (l_loc l) (l_kind l) c else l)); exact Hl|].
+  destruct (String.eqb (l_name l) m); exact Hn.
+Qed.
+
+Definition snap_inv (names : list string) (ss : sstate) : Prop :=
+  rf_unit_mode (s_regs ss) = Ok UM_RAW /\ rreg (s_regs ss) R_DURATION = VFlt PrimFloat.zero /\ rreg (s_regs ss) R_TIME = VFlt PrimFloat.zero /\
+  s_locals ss = None /\ forall n, In n names -> find_light (s_world ss) n <> None.
+
+Lemma inv_set_reg names ss r x : snap_inv names ss -> script_reg r = true -> r <> R_DURATION -> r <> R_TIME ->
+  snap_inv names (s_with_regs ss (rf_set (s_regs ss) r x)).
+Proof.
+  intros (Hm & Hd & Ht & Hl & Hw) Hr Hnd Hnt. unfold snap_inv. cbn [s_with_regs s_regs s_locals s_world].
+  assert (Hne : forall r', register_eqb r' r = false -> rreg (rf_set (s_regs ss) r x) r' = rreg (s_regs ss) r') by (intros; apply rreg_set_other; assumption).
+  repeat split; try assumption.
+  - unfold rf_unit_mode. rewrite Hne by (destruct r; try reflexivity; discriminate). exact Hm.
+  - rewrite Hne by (destruct r; try reflexivity; contradiction). exact Hd.
+  - rewrite Hne by (destruct r; try reflexivity; contradiction). exact Ht.
+Qed.
+
+Lemma wait_none ss names : snap_inv names ss -> do_wait ss = ROk tt ss.
+Proof. intros (_ & _ & Ht & _). unfold do_wait, rf_wait. rewrite Ht. vm_compute. reflexivity. Qed.
+
+Lemma duration_zero ss names : snap_inv names ss -> sent_duration (s_regs ss) = Ok 0.
+Proof. intros (Hm & Hd & _). unfold sent_duration, rf_raw_duration. rewrite Hm. cbn [bind as_raw_time]. rewrite Hd. vm_compute. reflexivity. Qed.
+
+Lemma inv_set_any names ss r x : snap_inv names ss -> r <> R_UNIT_MODE -> r <> R_DURATION -> r <> R_TIME ->
+  snap_inv names (s_with_regs ss (rf_set (s_regs ss) r x)).
+Proof.
+  intros (Hm & Hd & Ht & Hl & Hw) Hnm Hnd Hnt. unfold snap_inv. cbn [s_with_regs s_regs s_locals s_world].
+  assert (Hne : forall r', r' <> r -> rreg (rf_set (s_regs ss) r x) r' = rreg (s_regs ss) r').
+  { intros r' Hr. apply rreg_set_other. destruct (register_eqb r' r) eqn:E; [apply register_eqb_eq in E; contradiction|reflexivity]. }
+  repeat split; try assumption.
+  - unfold rf_unit_mode. rewrite Hne by (intros E; apply Hnm; symmetry; exact E). exact Hm.
+  - rewrite Hne by (intros E; apply Hnd; symmetry; exact E). exact Hd.
+  - rewrite Hne by (intros E; apply Hnt; symmetry; exact E). exact Ht.
+Qed.
+
+Section PlainSem.
+Variable rt : rtable.
+Variable mt : mtable.
+
+(* one captured plain light: four register settings, on / off, set *)
+Lemma plain_device_sem n h s b k (pw : bool) rest names ss fuel :
+  snap_inv names ss -> In n names ->
+  0 <= h <= 65535 -> 0 <= s <= 65535 -> 0 <= b <= 65535 -> 0 <= k <= 65535 -> (4 <= fuel)%nat ->
+  exists ss', exec_seq rt mt (6 + fuel) false ss (device_stmts (mkDevice n (DPlain [h; s; b; k] pw)) ++ rest) = exec_seq rt mt fuel false ss' rest /\
+              snap_inv names ss' /\
+              rev (s_trace ss') = rev (s_trace ss) ++ device_events (mkDevice n (DPlain [h; s; b; k] pw)).
+Proof.
+  intros Hinv Hn Rh Rs Rb Rk Hfuel.
+  destruct fuel as [|[|[|[|fuel]]]]; try lia.
+  unfold device_stmts, set_regs, comp, light_target. cbn [dv_name dv_state nth app].
+  (* the four registers *)
+  set (r1 := rf_set (s_regs ss) R_HUE (VInt h)).
+  set (r2 := rf_set r1 R_SATURATION (VInt s)).
+  set (r3 := rf_set r2 R_BRIGHTNESS (VInt b)).
+  set (r4 := rf_set r3 R_KELVIN (VInt k)).
+  set (r5 := rf_set r4 R_POWER (VBool pw)).
+  set (ss5 := s_with_regs ss r5).
+  assert (Hinv5 : snap_inv names ss5).
+  { unfold ss5, r5, r4, r3, r2, r1.
+    pose proof (inv_set_any names ss R_HUE (VInt h) Hinv ltac:(discriminate) ltac:(discriminate) ltac:(discriminate)) as H1.
+    pose proof (inv_set_any names _ R_SATURATION (VInt s) H1 ltac:(discriminate) ltac:(discriminate) ltac:(discriminate)) as H2.
+    pose proof (inv_set_any names _ R_BRIGHTNESS (VInt b) H2 ltac:(discriminate) ltac:(discriminate) ltac:(discriminate)) as H3.
+    pose proof (inv_set_any names _ R_KELVIN (VInt k) H3 ltac:(discriminate) ltac:(discriminate) ltac:(discriminate)) as H4.
+    exact (inv_set_any names _ R_POWER (VBool pw) H4 ltac:(discriminate) ltac:(discriminate) ltac:(discriminate)). }
+  destruct Hinv5 as (Hm5 & Hd5 & Ht5 & Hl5 & Hw5).
+  assert (Hfind : find_light (s_world ss) n <> None) by (apply Hw5; exact Hn).
+  destruct (find_light (s_world ss) n) as [lt|] eqn:Efind; [|contradiction].
+  assert (Hcol : sent_color r5 = Ok [h; s; b; k]).
+  { apply raw_registers_sent_unchanged; try assumption.
+    - unfold r5, r4, r3, r2, r1. rewrite !rreg_set_other by reflexivity. apply rreg_set_same.
+    - unfold r5, r4, r3, r2. rewrite !rreg_set_other by reflexivity. apply rreg_set_same.
+    - unfold r5, r4, r3. rewrite !rreg_set_other by reflexivity. apply rreg_set_same.
+    - unfold r5, r4. rewrite !rreg_set_other by reflexivity. apply rreg_set_same. }
+  assert (Hdur : sent_duration r5 = Ok 0) by (apply (duration_zero ss5 names); repeat split; assumption).
+  assert (Hpow : power_sent r5 = if pw then 1 else 0) by (unfold power_sent, r5; rewrite rreg_set_same; destruct pw; reflexivity).
+  set (w' := set_light_color n [h; s; b; k] (s_world ss)).
+  set (ssP := s_emit ss5 [EvPower n (if pw then 1 else 0) 0]).
+  set (ssF := mkS r5 (s_globals ss) (s_locals ss) w' (rev_append [EvColor n [h; s; b; k] 0] (s_trace ssP))).
+  exists ssF. split; [|split].
+  - (* the run *)
+    change (6 + S (S (S (S fuel))))%nat with (S (S (S (S (S (S (S (S (S (S fuel)))))))))).
+    rewrite exec_seq_cons, exec_reg, eval_rval_S. cbn [sbind lit_value].
+    rewrite exec_seq_cons, exec_reg, eval_rval_S. cbn [sbind lit_value s_with_regs s_regs].
+    rewrite exec_seq_cons, exec_reg, eval_rval_S. cbn [sbind lit_value s_with_regs s_regs].
+    rewrite exec_seq_cons, exec_reg, eval_rval_S. cbn [sbind lit_value s_with_regs s_regs].
+    fold r1 r2 r3 r4.
+    rewrite exec_seq_cons.
+    set (ss4 := s_with_regs (s_with_regs (s_with_regs (s_with_regs ss r1) r2) r3) r4).
+    assert (Epow : Sem.exec rt mt (S (S (S (S (S fuel))))) false ss4
+                     ((if pw then SOn else SOff) (OpList [Target TLight (NStr n)])) = ROk SigNormal ssP).
+    { replace ((if pw then SOn else SOff) (OpList [Target TLight (NStr n)])) with (if pw then SOn (OpList [Target TLight (NStr n)]) else SOff (OpList [Target TLight (NStr n)])) by (destruct pw; reflexivity).
+      rewrite exec_power. cbv zeta.
+      match goal with |- context [do_wait ?x] => change x with ss5 end.
+      rewrite (wait_none ss5 names) by (repeat split; assumption). cbn [sbind].
+      rewrite exec_ops_list, exec_oplist_cons, exec_operand_target. unfold target_cmd, do_power_light. cbn [as_name].
+      change (s_world ss5) with (s_world ss). rewrite Efind. change (s_regs ss5) with r5. rewrite Hdur, Hpow. cbn [bind dev_step sbind].
+      rewrite exec_oplist_nil. reflexivity. }
+    rewrite Epow. cbn [sbind].
+    rewrite exec_seq_cons, exec_set.
+    assert (HinvP : snap_inv names ssP) by (unfold ssP, s_emit, snap_inv; cbn [s_regs s_locals s_world]; repeat split; assumption).
+    rewrite (wait_none ssP names HinvP). cbn [sbind].
+    rewrite exec_ops_list, exec_oplist_cons, exec_operand_target. unfold target_cmd, do_color_light. cbn [as_name].
+    change (s_world ssP) with (s_world ss). rewrite Efind. change (s_regs ssP) with r5.
+    unfold do_color_names. rewrite Hcol, Hdur. cbn [bind color_each]. rewrite Efind. cbn [dev_step sbind d_regs d_world d_events].
+    rewrite exec_oplist_nil. cbn [sbind]. reflexivity.
+  - (* the invariant *)
+    unfold snap_inv, ssF. cbn [s_regs s_locals s_world]. repeat split; try assumption.
+    intros m Hmn. unfold w'. apply find_light_set_color. apply Hw5. exact Hmn.
+  - (* the events *)
+    unfold ssF, ssP, s_emit, ss5. cbn [s_trace s_with_regs rev_append device_events dv_name dv_state rev app].
+    rewrite <- !app_assoc. reflexivity.
+Qed.
+End PlainSem.
+
+Definition good_plain (names : list string) (d : device) : Prop :=
+  In (dv_name d) names /\
+  match dv_state d with
+  | DPlain [h; s; b; k] _ => 0 <= h <= 65535 /\ 0 <= s <= 65535 /\ 0 <= b <= 65535 /\ 0 <= k <= 65535
+  | _ => False
+  end.
+
+Lemma plain_devices_sem rt mt names p : Forall (good_plain names) p ->
+  forall ss fuel, snap_inv names ss -> (6 * length p + 4 <= fuel)%nat ->
+  exists ss', exec_seq rt mt fuel false ss (flat_map device_stmts p) = ROk SigNormal ss' /\
+              rev (s_trace ss') = rev (s_trace ss) ++ replay_events p.
+Proof.
+  induction p as [|d r IH]; intros Hp ss fuel Hinv Hfuel.
+  - destruct fuel as [|fuel]; [cbn in Hfuel; lia|]. exists ss. split; [apply exec_seq_nil|]. cbn. rewrite app_nil_r. reflexivity.
+  - inversion Hp as [|? ? Hd Hr]; subst. destruct Hd as [Hn Hst]. destruct d as [n st]. cbn [dv_name dv_state] in *.
+    destruct st as [c pw| |]; try contradiction. destruct c as [|h [|s [|b [|k [|x t]]]]]; try contradiction.
+    destruct Hst as (Rh & Rs & Rb & Rk).
+    cbn [length] in Hfuel. assert (Hf : exists f', fuel = (6 + f')%nat /\ (6 * length r + 4 <= f')%nat) by (exists (fuel - 6)%nat; lia).
+    destruct Hf as (f' & -> & Hf').
+    destruct (plain_device_sem rt mt n h s b k pw (flat_map device_stmts r) names ss f' Hinv Hn Rh Rs Rb Rk ltac:(lia)) as (ss1 & E1 & Hinv1 & Ht1).
+    destruct (IH Hr ss1 f' Hinv1 Hf') as (ss2 & E2 & Ht2).
+    exists ss2. split.
+    + cbn [flat_map]. rewrite E1. exact E2.
+    + rewrite Ht2, Ht1. unfold replay_events. cbn [flat_map]. rewrite app_assoc. reflexivity.
+Qed.
+
+(* the reference semantics of the snapshot of a population of plain lights, replayed on any
+   population that still has those lights: exactly the replay commands, no delay, no output *)
+Theorem plain_snapshot_semantics (p : population) (w : world) (fuel : nat) :
+  Forall (good_plain (map l_name w)) p -> (6 * length p + 6 <= fuel)%nat ->
+  run_src fuel (snapshot_ast p) w = SFinished (replay_events p ++ [EvFlush]).
+Proof.
+  intros Hp Hfuel. unfold run_src. destruct (collect (snapshot_ast p) [] []) as [rt mt].
+  unfold snapshot_ast. destruct fuel as [|fuel]; [lia|]. rewrite exec_seq_cons.
+  destruct fuel as [|fuel]; [lia|]. rewrite exec_units.
+  assert (Hsw : rf_switch_unit_mode (s_regs (init_sstate w)) (VMode UM_RAW) =
+                Ok (rf_set (rf_set (fold_left (fun rf p => rf_set rf (fst p) (snd p))
+                        [(R_HUE, VFlt PrimFloat.zero); (R_SATURATION, VFlt PrimFloat.zero); (R_BRIGHTNESS, VFlt PrimFloat.zero); (R_KELVIN, VFlt PrimFloat.zero)]
+                        (rf_set init_regs R_UNIT_MODE (VMode UM_RAW))) R_DURATION (VFlt PrimFloat.zero)) R_TIME (VFlt PrimFloat.zero))) by (vm_compute; reflexivity).
+  rewrite Hsw. cbn [sbind].
+  match goal with |- context [exec_seq rt mt (S fuel) false ?s0 _] => set (ss0 := s0) end.
+  assert (Hinv : snap_inv (map l_name w) ss0).
+  { unfold snap_inv, ss0. cbn [s_with_regs s_regs s_locals s_world init_sstate]. repeat split; try (vm_compute; reflexivity).
+    intros n Hn. apply find_light_iff. apply in_map_iff in Hn. destruct Hn as [l [Hl Hin]]. exists l. split; assumption. }
+  destruct (plain_devices_sem rt mt (map l_name w) p Hp ss0 (S fuel) Hinv ltac:(lia)) as (ss' & E & Ht).
+  rewrite E. f_equal. rewrite Ht. reflexivity.
+Qed.
+
+(* the chain for plain lights: the compiled snapshot, run on the machine model against a population
+   that still has the captured lights, issues exactly the replay commands -- which restore the
+   captured state (replay_restores) *)
+Theorem plain_snapshot_on_the_machine (p : population) (w : world) :
+  plain_only p = true -> Forall (good_plain (map l_name w)) p ->
+  exists k, run_program k (compile (snapshot_ast p)) w = Finished (replay_events p ++ [EvFlush]).
+Proof.
+  intros Hpl Hp.
+  set (fuel := (seq_size (snapshot_ast p) + 6 * length p + 6)%nat).
+  apply (plain_snapshot_runs_as_its_source_says p w fuel); [exact Hpl|unfold fuel; lia|].
+  apply plain_snapshot_semantics; [exact Hp|unfold fuel; lia].
+Qed.
